@@ -622,6 +622,13 @@ func (t *T) Context() context.Context {
 		// while we were waiting for the lock.
 		return t.ctx
 	}
+	if t.cleaning.Load() {
+		// Cleanup began while we were waiting for the lock and has nothing left to cancel:
+		// a context created now would stay live.
+		ctx, cancel := context.WithCancel(context.Background())
+		cancel()
+		return ctx
+	}
 
 	// Use the testing.TB's context as the starting point if available,
 	// and the Background context if not.
